@@ -145,6 +145,35 @@ def defaultSingle : Threshold :=
 /-- `default_startup_step_panic_threshold`: no forward limit, backwards one day -/
 def defaultStartup : Threshold := ⟨none, some (secsDuration Gen.CFG_DEFAULT_STARTUP_BACKWARD_SECS)⟩
 
+/-! #### other fields validated by the repository's own code (ntpd/src/daemon/config/ntp_source.rs) -/
+
+/-- 2^64 as a double: the first value `Duration::try_from_secs_f64` rejects as too large -/
+def TWO64 : F64 := ⟨0x43f0000000000000⟩
+
+/-- csptp `poll_interval` / `response_interval`: `v > 0.0 && Duration::try_from_secs_f64(v).is_ok()`
+    (the conversion fails exactly for negative, NaN, infinite and ≥ 2^64 s values) -/
+def intervalOk (x : F64) : Bool := F64.lt F64.zero x && F64.lt x TWO64
+
+/-- sock / pps `precision`, `accuracy`, `period`, `measurement_noise_estimate`:
+    `v.partial_cmp(&0.0) == Some(Greater)` (+∞ passes, NaN does not) -/
+def positiveOk (x : F64) : Bool := F64.lt F64.zero x
+
+/-- the f64 a TOML value denotes for an `f64` field (integers are converted, everything else is a type error) -/
+def fieldNumber : Scalar → Option F64
+  | .float f => some f
+  | .int i => some (F64.ofI64 i)
+  | .uint u => some (F64.ofU64 u)
+  | _ => none
+
+def intervalField (sc : Scalar) : Bool := match fieldNumber sc with | some x => intervalOk x | none => false
+def positiveField (sc : Scalar) : Bool := match fieldNumber sc with | some x => positiveOk x | none => false
+
+/-- csptp `domain`: a `u8` in 128..=239 -/
+def domainField : Scalar → Bool
+  | .int i => decide (128 ≤ i ∧ i ≤ 239)
+  | .uint u => decide (128 ≤ u ∧ u ≤ 239)
+  | _ => false
+
 /-! #### source counting -/
 
 /-- a configured source: one association, or a pool asking for `count` (a `usize`) -/
